@@ -1207,6 +1207,15 @@ func (x *Exec) effectsOfCall(fr *Frame, ci ssa.CallInstruction, eff *loopEffects
 	case strings.HasPrefix(key, "(time."), strings.HasPrefix(key, "time."), key == "errors.New", key == "fmt.Errorf", key == "fmt.Sprintf", key == "math/rand.Intn":
 		return
 	}
+	if x.topFC != nil {
+		// "abstract call <substring> pure contract": abstracted although the callee has a contract (see callStatic)
+		for _, pat := range x.topFC.Abstract {
+			fs := strings.Fields(pat)
+			if len(fs) == 4 && fs[0] == "call" && fs[2] == "pure" && fs[3] == "contract" && strings.Contains(key, fs[1]) {
+				return
+			}
+		}
+	}
 	if fc := x.cs.Funcs[key]; fc != nil && !fc.Inline {
 		x.contractEffects(fc, callee, callee.Signature, eff)
 		return
